@@ -97,6 +97,16 @@ func (vc *FnVC) obAssert(kind, key, text, cond string, pos token.Pos) {
 	if cond == "true" {
 		return
 	}
+	if vc.sweep {
+		// safety sweep: no frame, callee preconditions taken for granted
+		if kind == "frame" {
+			return
+		}
+		if kind == "call-pre" || kind == "call-arg" {
+			vc.fact(fmt.Sprintf("(=> %s %s)", vc.curReach, cond))
+			return
+		}
+	}
 	goal := fmt.Sprintf("(=> %s %s)", vc.curReach, cond)
 	vc.ob(kind, key, text, goal, pos)
 	vc.fact(goal)
